@@ -216,6 +216,23 @@ def run(ctx):
                 st["hist"]["format_short_units"] += 1
             if len(st["samples"]) < 4 and sp["unit"] and sp["short"]:
                 st["samples"].append({"size": n, "specifier": sp["spec"], "text": r["r"]})
+    # "parsing the rendered text back yields the original size up to the displayed precision": the REAL parse_filesize on the REAL
+    # rendering, for specifiers whose unit names are size-literal units (binary or decimal base, long unit names, up to tera)
+    back = [(sp, n, r["r"]) for (sp, n), r in zip(reqs, fres) if isinstance(r.get("r"), str) and not sp["short"] and sp["base"] in ("", "d") and n < 1024 ** 5 // 2]
+    bres = h.batch([{"cmd": "filesize", "s": txt} for _, _, txt in back])
+    for (sp, n, txt), br in zip(back, bres):
+        st["evaluations"] += 1
+        m_ = re.match(r"^(\d+)(?:\.(\d+))?( ?)([A-Za-z]*)$", txt)
+        if not m_ or m_.group(4).lower() not in UNITS:
+            continue
+        unit_bytes = UNITS[m_.group(4).lower()]
+        nd = len(m_.group(2) or "")
+        got = br.get("r")
+        if got is None or abs(got - n) > Fraction(unit_bytes, 2 * 10 ** nd) + 1:
+            ctx.violation("impl-violates-spec", "format_size(%d, %r) = %r, which parse_filesize reads back as %s" % (n, sp["spec"], txt, got), input={"size": n, "specifier": sp["spec"], "rendered": txt})
+        else:
+            st["agreed"] += 1
+            st["hist"]["format_reads_back"] += 1
     # default rendering: monotone in the size and reads back to the size up to the displayed precision
     grid = sorted(set([rng.randrange(0, 2 ** rng.randint(1, 50)) for _ in range(300 if ctx.tier == "quick" else 20000)] + [2 ** k + d for k in range(1, 50) for d in (-1, 0, 1)]))
     gres = h.batch([{"cmd": "fmtsize", "n": n, "m": ""} for n in grid])
